@@ -540,6 +540,20 @@ def register(E):
     def _(E, st, callee, a, m):
         return [(T, E.alloc(st, a[0]))]
 
+    @model(r'^(?:std|alloc)::boxed::Box::new_uninit$')
+    def _(E, st, callee, a, m):
+        # `vec![..]` lowering of recent compilers: Box::new_uninit(), a write through ((*p).1.0.0), box_assume_init_into_vec_unsafe
+        cell = Adt('std::mem::MaybeUninit', None, [UNIT, Adt('std::mem::ManuallyDrop', None, [Adt('std::mem::MaybeDangling', None, [None])])])
+        return [(T, E.alloc(st, cell))]
+
+    @model(r'^(?:std|alloc)::boxed::box_assume_init_into_vec_unsafe$')
+    def _(E, st, callee, a, m):
+        cell = d(st, a[0])
+        arr = cell.fields[1].fields[0].fields[0]
+        if not isinstance(arr, Seq):
+            raise Inconclusive('box_assume_init_into_vec_unsafe on an unwritten box')
+        return [(T, Obj('Vec', tuple(arr.items)))]
+
     @model(r'^<(?:std::boxed::Box|std::sync::Arc|std::rc::Rc) as (?:std|core)::ops::Deref(?:Mut)?>::deref(?:_mut)?$|^<(?:std::boxed::Box|std::sync::Arc|std::rc::Rc) as (?:std|core)::convert::AsRef>::as_ref$|^<(?:std::boxed::Box|std::sync::Arc|std::rc::Rc) as std::borrow::Borrow>::borrow$')
     def _(E, st, callee, a, m):
         v = a[0]
